@@ -326,6 +326,47 @@ fn sub_edge_ids(input: &[u8], st: &mut Stats) -> R {
     with_edge_ids(|| sub_random(input, st))
 }
 
+/// instructions at the upper end of the 16-bit word-count field: total lengths 65530..=65535
+/// words (the maximum the first word can declare) for a variadic id list, a pair list and a string
+fn sub_max_length(input: &[u8], st: &mut Stats) -> R {
+    let k = idx(input) as usize;
+    if k >= 6 * 3 {
+        return Ok(());
+    }
+    let total = 65530 + k / 3; // words including the first word
+    let p = match k % 3 {
+        0 => {
+            // %1 = OpTypeStruct %2 ... : first word + result id + members
+            let n = total - 2;
+            let mut body = vec![1u32];
+            body.extend(std::iter::repeat(2).take(n));
+            Plan { opcode: 30, opname: "TypeStruct", rtype: None, rid: Some(1), operands: vec![dr::Operand::IdRef(2); n], body, shape: Shape::default() }
+        }
+        1 => {
+            // %2 = OpPhi %1 (%3 %4)* : first word + type + id + pairs (odd totals only fit with 2k+3)
+            let pairs = (total - 3) / 2;
+            let mut body = vec![1u32, 2];
+            let mut ops = vec![];
+            for _ in 0..pairs {
+                body.extend([3, 4]);
+                ops.push(dr::Operand::IdRef(3));
+                ops.push(dr::Operand::IdRef(4));
+            }
+            Plan { opcode: 245, opname: "Phi", rtype: Some(1), rid: Some(2), operands: ops, body, shape: Shape::default() }
+        }
+        _ => {
+            // %1 = OpString "aaaa..." : first word + id + string words
+            let sw = total - 2;
+            let s: String = std::iter::repeat('a').take(sw * 4 - 1 - (k % 2)).collect();
+            let mut body = vec![1u32];
+            body.extend(str_words(&s));
+            Plan { opcode: 7, opname: "String", rtype: None, rid: Some(1), operands: vec![dr::Operand::LiteralString(s)], body, shape: Shape::default() }
+        }
+    };
+    st.count(&format!("max_length_words_{}", p.body.len() + 1));
+    check_plan(&[], &p, st)
+}
+
 fn sub_sweep(input: &[u8], st: &mut Stats) -> R {
     let i = idx(input);
     let cases = sweep::cases();
@@ -363,6 +404,10 @@ pub const SUBS: &[Sub] = &[
         name: "structured-prelude",
         f: sub_structured,
     },
+    Sub {
+        name: "max-length",
+        f: sub_max_length,
+    },
 ];
 
 pub fn run(ctx: &Ctx) {
@@ -377,13 +422,14 @@ pub fn run(ctx: &Ctx) {
     drive_random(ctx, &SUBS[1], ctx.n(30_000, 20_000_000), 256);
     drive_random(ctx, &SUBS[2], ctx.n(15_000, 10_000_000), 256);
     drive_random(ctx, &SUBS[3], ctx.n(15_000, 10_000_000), 320);
+    drive_enum(ctx, &SUBS[4], 18);
 }
 
 pub fn finish(ctx: &Ctx) -> i32 {
     crate::engine::finish(
         ctx,
         Finish {
-            rule: "cases: (a) complete sweep = every core opcode in minimal and maximal form, every enumerant of every operand kind, every single bit / pair of bits / all bits of every mask, every opcode embedded in OpSpecConstantOp (x3 fills each); (b) random grammar-directed plans over all 787 opcodes with a random int/float type prelude. (b') the same with result ids (type ids, typed values, selectors) drawn from the extreme values 0 / 0x7fffffff / 0x80000000 / 0xffffffff. (b'') the same with OpFunction / OpFunctionParameter / OpLabel / OpReturn / OpFunctionEnd / OpNop scattered through the prelude, so that the instruction sits in a later function and its types or typed values are declared at module scope or in an earlier function body. Oracle: Instruction::assemble == words built from numeric values by the generator; parse_words/parse_bytes of header+prelude+words deliver an equal instruction; reference parser R1 accepts the same words. non-trivial = instruction with at least one operand or a result id; distinct = hash of the encoded words.",
+            rule: "cases: (a) complete sweep = every core opcode in minimal and maximal form, every enumerant of every operand kind, every single bit / pair of bits / all bits of every mask, every opcode embedded in OpSpecConstantOp (x3 fills each); (b) random grammar-directed plans over all 787 opcodes with a random int/float type prelude. (b') the same with result ids (type ids, typed values, selectors) drawn from the extreme values 0 / 0x7fffffff / 0x80000000 / 0xffffffff. (b'') the same with OpFunction / OpFunctionParameter / OpLabel / OpReturn / OpFunctionEnd / OpNop scattered through the prelude, so that the instruction sits in a later function and its types or typed values are declared at module scope or in an earlier function body. (c) instructions of 65530..=65535 words (the largest count the first word can declare): an id list, a pair list, a string. Oracle: Instruction::assemble == words built from numeric values by the generator; parse_words/parse_bytes of header+prelude+words deliver an equal instruction; reference parser R1 accepts the same words. non-trivial = instruction with at least one operand or a result id; distinct = hash of the encoded words.",
             assumptions: vec![
                 "grammar facts (operand kinds, quantifiers, enumerant parameters) come from the golden snapshot of the pinned tree, cross-checked against hand-written specification anchors (golden/verify.py)".into(),
                 "ids are defined once; context-dependent literals are generated only for supported widths".into(),
